@@ -17,7 +17,7 @@
                        refute the refinement, and its counterexample
                        (e.g. Evaluate; table; bool) is replayed on the code.
 
-   Statuses are abstracted to "OK" (DONE / SUCCESS), "KO" (the failing status
+   Statuses are abstracted to "OK" (DONE / SUCCESS), "KO" (the failing statuses
    present in the failing variant) and "OTHER" (every status absent from the
    input). *)
 EXTENDS Integers, Sequences, FiniteSets, TLC
